@@ -114,12 +114,8 @@ theorem markAsEnd_forced (p : Nat) (e : End) (a : A) :
 @[simp] theorem union_n (x y : Compl) : (x.union y).n = (x.n || y.n) := rfl
 @[simp] theorem union_b (x y : Compl) : (x.union y).b = (x.b || y.b) := rfl
 @[simp] theorem union_c (x y : Compl) : (x.union y).c = (x.c || y.c) := rfl
-@[simp] theorem evalCompl_n (k : Kids) : (evalCompl k).n = true := rfl
-@[simp] theorem evalCompl_b (k : Kids) : (evalCompl k).b = false := rfl
-@[simp] theorem evalCompl_c (k : Kids) : (evalCompl k).c = false := rfl
-@[simp] theorem testCompl_n (tt : Bool) (k : Kids) : (testCompl tt k).n = true := by unfold testCompl; split <;> rfl
-@[simp] theorem testCompl_b (tt : Bool) (k : Kids) : (testCompl tt k).b = false := by unfold testCompl; split <;> rfl
-@[simp] theorem testCompl_c (tt : Bool) (k : Kids) : (testCompl tt k).c = false := by unfold testCompl; split <;> rfl
+@[simp] theorem evalCompl_eq (k : Kids) : evalCompl k = k.compl := rfl
+@[simp] theorem testComplOf_eq (tt : Bool) (k : Kids) : testComplOf tt k.compl = testCompl tt k := rfl
 @[simp] theorem normal_n : Compl.normal.n = true := rfl
 @[simp] theorem normal_b : Compl.normal.b = false := rfl
 @[simp] theorem normal_c : Compl.normal.c = false := rfl
@@ -147,9 +143,6 @@ theorem hasCl_append (x y : List Id) : (!(x ++ y).isEmpty) = (!x.isEmpty || !y.i
   unfold Compl.seq Compl.hasCl; cases h : x.n <;> simp [Compl.union, Compl.abrupt, hasCl_append]
 @[simp] theorem union_hasCl (x y : Compl) : (x.union y).hasCl = (x.hasCl || y.hasCl) := by
   simp [Compl.union, Compl.hasCl, hasCl_append]
-@[simp] theorem evalCompl_hasCl (k : Kids) : (evalCompl k).hasCl = false := rfl
-@[simp] theorem testCompl_hasCl (tt : Bool) (k : Kids) : (testCompl tt k).hasCl = false := by
-  unfold testCompl; split <;> rfl
 @[simp] theorem normal_hasCl : Compl.normal.hasCl = false := rfl
 @[simp] theorem guard_hasCl (g : Bool) (x : Compl) : (Compl.guard g x).hasCl = (g && x.hasCl) := by
   unfold Compl.guard; cases g <;> simp [Compl.hasCl]
@@ -174,9 +167,6 @@ theorem any_of_not_hasCl (x : Compl) (f : Id → Bool) (h : x.hasCl = false) : x
 @[simp] theorem seq_t (x y : Compl) : (x.seq y).t = (x.t || (x.n && y.t)) := by
   unfold Compl.seq; cases h : x.n <;> simp [Compl.union, Compl.abrupt]
 @[simp] theorem union_t (x y : Compl) : (x.union y).t = (x.t || y.t) := rfl
-@[simp] theorem evalCompl_t (k : Kids) : (evalCompl k).t = k.mayThrow := rfl
-theorem testCompl_t (tt : Bool) (k : Kids) : (testCompl tt k).t = (!tt && k.mayThrow) := by
-  unfold testCompl; cases tt <;> simp [evalCompl]
 @[simp] theorem normal_t : Compl.normal.t = false := rfl
 @[simp] theorem guard_t (g : Bool) (x : Compl) : (Compl.guard g x).t = (g && x.t) := by
   unfold Compl.guard; cases g <;> simp
@@ -184,5 +174,67 @@ theorem testCompl_t (tt : Bool) (k : Kids) : (testCompl tt k).t = (!tt && k.mayT
 @[simp] theorem loopCompl_t (ls : List Id) (x : Bool) (b : Compl) : (loopCompl ls x b).t = b.t := rfl
 
 @[simp] theorem setEnd_mayThrow (a : A) (e : Option End) : (a.setEnd e).sc.mayThrow = a.sc.mayThrow := rfl
+
+/-! ### expressions without statements nested in them, and "plain" completions -/
+mutual
+/-- no statement is nested directly in this expression tree (`with` bodies, class static blocks); function scopes are
+not looked into -/
+def Kid.pure : Kid → Bool
+  | .expr _ ks => ks.pure
+  | .fnScope _ _ => true
+  | .block _ _ => false
+  | .stmt _ => false
+def Kids.pure : Kids → Bool
+  | .nil => true
+  | .cons k r => k.pure && r.pure
+end
+
+/-- completions that are normal or a throw only: no `break`/`continue` escapes -/
+def Compl.plain (c : Compl) : Bool := !c.b && !c.c && !c.hasCl
+
+theorem Compl.plain_b {c : Compl} (h : c.plain = true) : c.b = false := by
+  unfold Compl.plain at h; cases hb : c.b <;> simp_all
+theorem Compl.plain_c {c : Compl} (h : c.plain = true) : c.c = false := by
+  unfold Compl.plain at h; cases hb : c.c <;> simp_all
+theorem Compl.plain_hasCl {c : Compl} (h : c.plain = true) : c.hasCl = false := by
+  unfold Compl.plain at h; cases hb : c.hasCl <;> simp_all
+
+/-- what evaluating pure expressions can do: complete normally, or throw if some part may throw -/
+def pureCompl (ks : Kids) : Compl := { n := true, t := ks.mayThrow }
+
+@[simp] theorem pureCompl_n (k : Kids) : (pureCompl k).n = true := rfl
+@[simp] theorem pureCompl_b (k : Kids) : (pureCompl k).b = false := rfl
+@[simp] theorem pureCompl_c (k : Kids) : (pureCompl k).c = false := rfl
+@[simp] theorem pureCompl_hasCl (k : Kids) : (pureCompl k).hasCl = false := rfl
+@[simp] theorem pureCompl_t (k : Kids) : (pureCompl k).t = k.mayThrow := rfl
+theorem pureCompl_plain (k : Kids) : (pureCompl k).plain = true := rfl
+
+theorem seq_simple (t1 t2 : Bool) : Compl.seq { n := true, t := t1 } { n := true, t := t2 } = { n := true, t := t1 || t2 } := by
+  simp [Compl.seq, Compl.union, Compl.abrupt]
+
+mutual
+theorem Kid.compl_pure : ∀ (k : Kid), k.pure = true → k.compl = { n := true, t := k.mayThrow }
+  | .expr e ks, h => by
+    have hk := Kids.compl_pure ks (by simpa [Kid.pure] using h)
+    simp only [Kid.compl, hk, pureCompl]
+    cases e <;> simp [exprOwn, seq_simple, Kid.mayThrow]
+  | .fnScope _ _, _ => by simp [Kid.compl, Kid.mayThrow, Compl.normal]
+  | .block _ _, h => by simp [Kid.pure] at h
+  | .stmt _, h => by simp [Kid.pure] at h
+theorem Kids.compl_pure : ∀ (ks : Kids), ks.pure = true → ks.compl = pureCompl ks
+  | .nil, _ => by simp [Kids.compl, pureCompl, Kids.mayThrow, Compl.normal]
+  | .cons k r, h => by
+    simp only [Kids.pure, Bool.and_eq_true] at h
+    simp only [Kids.compl, Kid.compl_pure k h.1, Kids.compl_pure r h.2, pureCompl, seq_simple, Kids.mayThrow]
+end
+
+theorem testCompl_n (tt : Bool) (k : Kids) : (testCompl tt k).n = (tt || k.compl.n) := by
+  unfold testCompl testComplOf; cases tt <;> simp
+theorem testCompl_plain (tt : Bool) (k : Kids) (h : k.compl.plain = true) : (testCompl tt k).plain = true := by
+  unfold testCompl testComplOf; cases tt
+  · simpa using h
+  · rfl
+theorem testCompl_t (tt : Bool) (k : Kids) : (testCompl tt k).t = (!tt && k.compl.t) := by
+  unfold testCompl testComplOf; cases tt <;> simp
 
 end DL.CF
